@@ -178,10 +178,10 @@ class Backfilling(TMGRSchedulingComponent):
                     continue
 
                 if uid not in info['tasks']:
-                    # this contradicts the task's assignment
+                    # not placed by this scheduler (early binding): such
+                    # tasks are not accounted for in `used`
                     self._log.debug('upd task  %s not in tasks', uid)
-                    self._log.error('bf: task %s on %s inconsistent', uid, pid)
-                    raise RuntimeError('inconsistent scheduler state')
+                    continue
 
                 # this task is now considered done
                 info['done'].append(uid)
